@@ -102,6 +102,15 @@ func init() {
 					}
 				}
 			}
+			if tier != "selftest" {
+				// the host is itself a plugin of another host: its own environment
+				// carries a version list, which must not decide anything here
+				for _, inh := range c02Inherited {
+					for _, pair := range [][2]string{{"1,2", "1,2"}, {"2", "1,2"}, {"1,2,3", "L1,3"}, {"L1,2", "2,3"}, {"3", "1,2"}} {
+						out = append(out, sp("C02", fmt.Sprintf("nested/%s/h%s/p%s", inh, pair[0], pair[1]), seed, P("host", pair[0], "plugin", pair[1], "mask", "4", "env", "normal", "inherit", inh)))
+					}
+				}
+			}
 			n := 500
 			if tier == "thorough" {
 				n = 100000
@@ -116,6 +125,9 @@ func init() {
 				env := []string{"normal", "normal", "delete", "corrupt-mid", "corrupt-all", "empty", "dup"}[u("env", 7)]
 				s := &k.Spec{Params: P("host", sideString(hs, u("hl", 3) == 0), "plugin", sideString(ps, u("pl", 3) == 0), "mask", strconv.Itoa(u("mask", 32)), "env", env,
 					"nogrpcserver", b2s(u("ngs", 6) == 0))}
+				if env == "normal" && u("inh", 3) == 0 {
+					s.Params["inherit"] = c02Inherited[u("inhv", len(c02Inherited))]
+				}
 				if u("noise", 2) == 0 {
 					swarm(s, "server.go:protocolVersion,client.go:Client.checkProtoVersion")
 					if s.DelayClass == "big" {
@@ -151,13 +163,22 @@ func buildSets(vs verSide, mask int, tagPrefix string, shared map[int]*plugins.S
 	return
 }
 
+var c02Inherited = []string{"1", "7", "2,3", "x", "0"}
+
 func runC02(r *h.Run) {
 	w := r.W
+	if inh := r.Spec.P("inherit", ""); inh != "" {
+		r.Host.Setenv("PLUGIN_PROTOCOL_VERSIONS", inh)
+		w.CountFault("env.inherited-versions")
+	}
 	hs, ps := parseSide(r.Spec.P("host", "1")), parseSide(r.Spec.P("plugin", "1"))
 	mask := r.Spec.PI("mask", 0)
 	envMode := r.Spec.P("env", "normal")
 	noGRPCServer := r.Spec.P("nogrpcserver", "0") == "1"
 	ctx := fmt.Sprintf("host=%s plugin=%s env=%s", r.Spec.P("host", ""), r.Spec.P("plugin", ""), envMode)
+	if r.Spec.P("inherit", "") != "" {
+		ctx += " host-env-list=" + r.Spec.P("inherit", "")
+	}
 
 	// plugin program
 	pShared := map[int]*plugins.Shared{}
